@@ -226,7 +226,8 @@ PRIORS = [{'kw': {'n_designs': 2}, 'op': 'exhaustive_search'},
           {'kw': {'n_geos_max': 2}, 'op': 'geo_assignments'},
           {'kw': {'treatment_share_range': [0.05, 0.35], 'n_designs': 2}, 'op': 'greedy_search'},
           {'kw': {'n_geos_max': 2}, 'op': 'geo_assignments', 'interleave': True},
-          {'kw': {}, 'op': 'geo_assignments', 'interleave': True}]
+          {'kw': {}, 'op': 'geo_assignments', 'interleave': True},
+          {'kw': {}, 'op': 'geo_assignments', 'shared_eligibility': True}]
 
 
 def reuse_space(p, include, base_kw, methods=('exhaustive_search', 'greedy_search'), d=1, priors=PRIORS, k_values=()):
@@ -242,6 +243,25 @@ def reuse_space(p, include, base_kw, methods=('exhaustive_search', 'greedy_searc
             cc['deviations'] = c['deviations'] + 1
             out.append(cc)
     return out
+
+
+def weak_space(methods=('exhaustive_search',), seeds=(0, 1, 5), k_values=(1, 2, 5), G=4, T=16):
+    """WEAKLY correlated panels x min_corr in {0.8, 0.95, 0.999}: most or all designs fail the correlation test, so the
+    ranking is decided by the other verdicts and by the rounded correlation (designs that fail a test compete)."""
+    out = []
+    for sd in seeds:
+        p = {'name': 'W', 'G': G, 'T': T, 'seed': sd}
+        for mc_ in (0.8, 0.95, 0.999):
+            for k in k_values:
+                kw = {'n_designs': k}
+                if mc_ != 0.8:
+                    kw['min_corr'] = mc_
+                rowsets = [[[1, 1, 1]] * G] + [[[1, 1, 1]] * g + [list(r)] + [[1, 1, 1]] * (G - g - 1)
+                                               for g in (0, G - 1) for r in ((0, 1, 0), (1, 0, 1))]
+                for rows in rowsets:
+                    out.append({'panel': p, 'rows': [list(r) for r in rows], 'nomatrix': False, 'extra': None, 'kw': kw,
+                                'deviations': 1 + (mc_ != 0.8) + (rows is not rowsets[0])})
+    return [c for c in with_methods(out, methods) if precondition_ok(c)]
 
 
 def _mids(values, lo_pad, hi_pad, min_gap=1e-6):
